@@ -42,6 +42,7 @@ static int nmsgs, script_pos, tx_order;
 static int cur_submit = -1;
 static const char *last_event = "start";
 static int in_prepare, suspect[2];
+static int icmp_done;
 static char suspect_event[2][64];
 static char last_event_buf[64];
 
@@ -181,6 +182,8 @@ nack_handler(coap_session_t *session, const coap_pdu_t *sent, const coap_nack_re
   vx_observe("t=%llu NACK s%d reason=%d mid=%04x sent=%s", (unsigned long long)ns_now(), s, reason, mid, sent ? "pdu" : "null");
   if (!sent)
     return;
+  if (reason == COAP_NACK_ICMP_ISSUE)
+    return; /* a notice about the path, not a conclusion: the message stays queued and goes on being retransmitted */
   struct msg *x = find(s, mid);
   if (!x)
     return;
@@ -263,7 +266,7 @@ check_no_idle_slot(void) {
 
 static int
 step(void) {
-  enum { EV_DELIVER, EV_APP, EV_TIMER, EV_REORDER, EV_DROP, EV_DUP };
+  enum { EV_DELIVER, EV_APP, EV_TIMER, EV_REORDER, EV_DROP, EV_DUP, EV_ICMP };
   struct {
     int kind, idx;
   } ev[VX_MAXALT];
@@ -307,8 +310,17 @@ step(void) {
       if (ns_dups_done < 2)
         ev[n].kind = EV_DUP, ev[n].idx = j, cost[n++] = 1;
     }
+  /* environment answer: an ICMP port-unreachable notice for the main session's socket (once per execution) */
+  if (budget > 0 && !icmp_done && n < VX_MAXALT && C->peer_mode != 1 && C->k <= 4)
+    ev[n].kind = EV_ICMP, ev[n].idx = 0, cost[n++] = 1;
   int c = vx_choose(n, cost, "step");
   switch (ev[c].kind) {
+  case EV_ICMP:
+    icmp_done = 1;
+    vx_observe("   ICMP unreachable notice for session 0");
+    ns_icmp_unreachable(&cli[0]);
+    last_event = "icmp-notice";
+    break;
   case EV_DELIVER:
     ns_deliver(0);
     break;
@@ -344,6 +356,7 @@ run(void *arg) {
   ns_init();
   memset(msgs, 0, sizeof msgs);
   nmsgs = script_pos = tx_order = 0;
+  icmp_done = 0;
   cur_submit = -1;
   ns_on_send = on_send;
   ns_on_deliver = on_deliver;
@@ -476,7 +489,7 @@ main(int argc, char **argv) {
       }
   vx_ev_rule("executions of a real libcoap client session against a raw peer that ACKs / RSTs only what it received; enumerated: NSTART 1..3 x "
              "all CON/NON type vectors of bursts of 1..4 (thorough 5) messages x one or two bursts x bystander session (also with the same message ids as the main session), and all schedules with "
-             "<= bound deviations (drop / duplicate / reorder of any datagram, timer before delivery, peer verdict RST or silence for CON, RST for NON, the socket refusing the transmission inside coap_send()), plus long bursts of 8 / 13 / 20 messages (all CON, alternating CON/NON, a NON after every third CON) and bursts of 6 with NSTART 1..4 under <= 1 (2) deviations, bursts inside which the message id counter wraps to 0 and bursts whose first Confirmable loses every copy and is given up while later ones are held; "
+             "<= bound deviations (drop / duplicate / reorder of any datagram, timer before delivery, peer verdict RST or silence for CON, RST for NON, the socket refusing the transmission inside coap_send(), an ICMP port-unreachable notice read from the socket), plus long bursts of 8 / 13 / 20 messages (all CON, alternating CON/NON, a NON after every third CON) and bursts of 6 with NSTART 1..4 under <= 1 (2) deviations, bursts inside which the message id counter wraps to 0 and bursts whose first Confirmable loses every copy and is given up while later ones are held; "
              "non-trivial = deviation taken or retransmission; distinct = distinct observation logs");
   vx_ev_assumption("datagram (UDP) session; the 'before the session is established' clause is exercised with DTLS in the C19 harness");
   for (int i = 0; i < ncfgs; i++)
